@@ -106,9 +106,9 @@ def _unit(a):
         key = (c.args, c.w, c.unchecked)
         if key not in refs:
             rr = hidref.Ref(prog, env, c.w, c.unchecked, ref_fuel)
-            refs[key] = rr.run(c.args) + (rr.alloc_marks, rr.wrapped)
+            refs[key] = rr.run(c.args) + (rr.alloc_marks, rr.wrapped, rr.replays, ref_fuel - rr.fuel)
         ref = refs[key]
-        res.append(Res(c, run, ref[:4], compare(run, ref[:4]), {'alloc_marks': ref[4], 'wrapped': ref[5]}))
+        res.append(Res(c, run, ref[:4], compare(run, ref[:4]), {'alloc_marks': ref[4], 'wrapped': ref[5], 'replays': ref[6], 'ref_steps': ref[7]}))
     return res
 
 
